@@ -1,0 +1,162 @@
+//go:build verif
+
+// Contracts for the verification machinery in /verif (comment-only; no code).
+// The cache: buckets of entries keyed by string(key); count tracks the number of entries held.
+
+package kademlia
+
+//@ spec func expired(expiresAt int, now int) bool = expiresAt != 0 && expiresAt < now
+
+//@ type bucket
+//@   invariant entries != nil
+
+//@ func (Entry).IsExpired
+//@   pure
+//@   ensures ret <==> expired(e.ExpiresAt, now)
+//@
+//@ func (*bucket).len
+//@   pure
+//@   requires b.entries != nil
+//@   ensures ret == len(b.entries)
+//@
+//@ func (*bucket).get
+//@   pure
+//@   requires b.entries != nil
+//@   ensures exists <==> (string(key) in b.entries)
+//@   ensures exists ==> ret == b.entries[string(key)]
+//@
+//@ func (*bucket).updateMinExpires
+//@   modifies b.minExpiresAt
+//@   ensures x == 0 ==> b.minExpiresAt == old(b.minExpiresAt)
+//@   ensures x != 0 && (old(b.minExpiresAt) == 0 || x < old(b.minExpiresAt)) ==> b.minExpiresAt == x
+//@   ensures x != 0 && old(b.minExpiresAt) != 0 && x >= old(b.minExpiresAt) ==> b.minExpiresAt == old(b.minExpiresAt)
+//@
+//@ func (*bucket).put
+//@   requires bu.entries != nil
+//@   modifies bu.minExpiresAt, all(bu.entries)
+//@   ensures string(e.Key) in bu.entries
+//@   ensures bu.entries[string(e.Key)] == e
+//@   ensures len(bu.entries) == old(len(bu.entries)) + (old(string(e.Key) in bu.entries) ? 0 : 1)
+//@   ensures forall k:string :: k != string(e.Key) ==> ((k in bu.entries) <==> old(k in bu.entries)) && bu.entries[k] == old(bu.entries[k])
+//@
+//@ func (*bucket).delete
+//@   requires b.entries != nil
+//@   modifies b.minExpiresAt, all(b.entries)
+//@   ensures exists <==> old(string(key) in b.entries)
+//@   ensures exists ==> ret == old(b.entries[string(key)])
+//@   ensures !(string(key) in b.entries)
+//@   ensures len(b.entries) == old(len(b.entries)) - (exists ? 1 : 0)
+//@   ensures forall k:string :: k != string(key) ==> ((k in b.entries) <==> old(k in b.entries)) && b.entries[k] == old(b.entries[k])
+//@   loop 0:
+//@     invariant forall k:string :: ((k in b.entries) <==> (old(k in b.entries) && k != string(key))) && (k != string(key) ==> b.entries[k] == old(b.entries[k]))
+//@     invariant len(b.entries) == old(len(b.entries)) - 1
+//@
+//@ func (*bucket).expire
+//@   requires b.entries != nil
+//@   modifies all(b.entries), all(ret)
+//@   ensures forall k:string :: (k in b.entries) <==> (old(k in b.entries) && !expired(old(b.entries[k]).ExpiresAt, now))
+//@   ensures forall k:string :: (k in b.entries) ==> b.entries[k] == old(b.entries[k])
+//@   ensures len(ret0) - len(ret) == old(len(b.entries)) - len(b.entries) && len(ret0) >= len(ret)
+//@   loop 0:
+//@     invariant forall k:string :: seen(k) ==> ((k in b.entries) <==> (old(k in b.entries) && !expired(old(b.entries[k]).ExpiresAt, now)))
+//@     invariant forall k:string :: !seen(k) ==> ((k in b.entries) <==> old(k in b.entries))
+//@     invariant forall k:string :: seen(k) ==> old(k in b.entries)
+//@     invariant forall k:string :: (k in b.entries) ==> b.entries[k] == old(b.entries[k])
+//@     invariant len(ret) - len(old(ret)) == old(len(b.entries)) - len(b.entries) && len(ret) >= len(old(ret))
+
+//@ func (*bucket).evict
+//@   requires b.entries != nil && len(b.entries) >= 1
+//@   modifies all(b.entries)
+//@   ensures old(string(ret.Key) in b.entries) || true
+//@   ensures len(b.entries) == old(len(b.entries)) - 1
+//@   ensures exists k:string :: old(k in b.entries) && !(k in b.entries) && ret == old(b.entries[k]) && \
+//@           (forall j:string :: j != k ==> ((j in b.entries) <==> old(j in b.entries)) && b.entries[j] == old(b.entries[j]))
+//@   loop 0:
+//@     invariant forall k:string :: (k in b.entries) <==> old(k in b.entries)
+//@     invariant forall k:string :: b.entries[k] == old(b.entries[k])
+//@     invariant len(b.entries) == old(len(b.entries))
+//@     invariant !first ==> (maxIndex in b.entries)
+//@     invariant first ==> (forall k:string :: !seen(k))
+
+// ---- the cache ------------------------------------------------------------------------------------
+
+//@ type Cache
+//@   invariant forall i :: 0 <= i && i < len(buckets) ==> buckets[i] != nil && buckets[i].entries != nil
+//@   invariant forall i, j :: 0 <= i && i < j && j < len(buckets) ==> buckets[i] != buckets[j] && buckets[i].entries != buckets[j].entries
+//@   invariant 0 <= max && 0 <= minPerBucket
+
+//@ func (*Cache).bucketIndex
+//@   pure
+//@   ensures 0 <= ret && ret <= 8*len(kc.locus)
+//@   ensures forall j :: 0 <= j && j < ret/8 && j < len(key) ==> kc.locus[j] == key[j]
+//@   ensures ret < 8*len(kc.locus) ==> ret/8 < len(key) && kc.locus[ret/8] != key[ret/8] && lz8(xor8(kc.locus[ret/8], key[ret/8])) == ret % 8
+//@
+//@ func (*Cache).Count
+//@   pure
+//@   ensures ret == kc.count
+//@ func (*Cache).IsFull
+//@   pure
+//@   ensures ret <==> kc.count >= kc.max
+//@
+//@ func (*Cache).Get
+//@   noframe
+//@   requires inv(kc)
+//@   ensures b == nil ==> !exists
+//@   ensures b != nil ==> (exists <==> (string(key) in b.entries)) && (exists ==> ret == b.entries[string(key)].Value)
+//@
+//@ func (*Cache).Delete
+//@   noframe
+//@   requires inv(kc)
+//@   ensures inv(kc)
+//@   ensures b == nil ==> kc.count == old(kc.count) && ret == nil
+//@   ensures b != nil ==> kc.count == old(kc.count) - (old(string(key) in b.entries) ? 1 : 0)
+//@   ensures b != nil ==> len(b.entries) == old(len(b.entries)) - (old(string(key) in b.entries) ? 1 : 0) && !(string(key) in b.entries)
+//@   ensures forall i :: 0 <= i && i < len(kc.buckets) && kc.buckets[i] != b ==> len(kc.buckets[i].entries) == old(len(kc.buckets[i].entries))
+//@
+//@ func (*Cache).evict
+//@   noframe
+//@   requires inv(kc)
+//@   ensures inv(kc)
+//@   ensures ret == nil ==> kc.count == old(kc.count) && (forall i :: 0 <= i && i < len(kc.buckets) ==> len(kc.buckets[i].entries) <= kc.minPerBucket)
+//@   ensures ret != nil ==> kc.count == old(kc.count) - 1
+//@   ensures ret != nil ==> exists m :: 0 <= m && m < len(kc.buckets) && old(len(kc.buckets[m].entries)) > kc.minPerBucket \
+//@        && len(kc.buckets[m].entries) == old(len(kc.buckets[m].entries)) - 1 \
+//@        && (forall i :: 0 <= i && i < m ==> len(kc.buckets[i].entries) <= kc.minPerBucket) \
+//@        && (forall i :: 0 <= i && i < len(kc.buckets) && i != m ==> len(kc.buckets[i].entries) == old(len(kc.buckets[i].entries)))
+//@   loop 0:
+//@     invariant 0 <= _i && _i <= len(kc.buckets) && n == 0 - 1
+//@     invariant forall j :: 0 <= j && j < _i ==> len(kc.buckets[j].entries) <= kc.minPerBucket
+//@
+//@ func (*Cache).Expire
+//@   noframe
+//@   requires inv(kc)
+//@   ensures inv(kc)
+//@   ensures kc.count + (len(ret) - len(out)) == old(kc.count) && len(ret) >= len(out)
+//@   loop 0:
+//@     invariant 0 <= _i && _i <= len(kc.buckets) && inv(kc)
+//@     invariant kc.count + (len(out) - len(old(out))) == old(kc.count) && len(out) >= len(old(out))
+//@     invariant len(kc.buckets) == old(len(kc.buckets))
+//@
+//@ func newBucket
+//@   ensures ret != nil && fresh(ret) && ret.entries != nil && fresh(ret.entries) && len(ret.entries) == 0
+//@
+//@ func (*bucket).update
+//@   noframe
+//@   requires b.entries != nil
+//@   allowpanic
+//@   ensures added <==> !old(string(key) in b.entries)
+//@   ensures string(key) in b.entries
+//@   ensures len(b.entries) == old(len(b.entries)) + (added ? 1 : 0)
+//@   ensures forall k:string :: k != string(key) ==> ((k in b.entries) <==> old(k in b.entries))
+//@   fnspec fn:
+//@     pure
+//@
+//@ func (*Cache).Update
+//@   noframe
+//@   requires inv(kc)
+//@   ensures inv(kc)
+//@   ensures old(kc.max) == 0 ==> evicted == nil && !added && kc.count == old(kc.count)
+//@   ensures old(kc.count) <= old(kc.max) ==> kc.count <= kc.max
+//@   ensures kc.max == old(kc.max)
+//@   fnspec fn:
+//@     pure
